@@ -15,7 +15,7 @@ HARNESSES = [(PKG, HARNESS, "c14"), ("network/transport/v2", ["network/transport
              ("vcr", ["vcr/zz_verif_c14_test.go"], "c14v")]
 ROOT = os.path.dirname(os.path.dirname(os.path.abspath(__file__)))
 
-REQUIRED = ["no_loss", "admitted_by_commit", "only_admitted_delivered", "payload_event_per_transaction", "identical_payload_witness", "payload_no_loss_partial", "payload_available_no_loss_fails", "not_admitted_unchanged", "no_call_after_done",
+REQUIRED = ["no_loss", "admitted_by_commit", "only_admitted_delivered", "save_event_reaches_every_subscriber", "add_with_shelf_fault_admits_nothing", "duplicate_add_changes_nothing", "fact_save_event_all_or_nothing", "payload_event_per_transaction", "identical_payload_witness", "payload_no_loss_partial", "payload_available_no_loss_fails", "not_admitted_unchanged", "no_call_after_done",
             "no_call_after_done_split", "completed_job_gone", "call_after_done_without_presence_check", "call_after_done_when_write_back_recreates", "shared_key_witness",
             "delay_monotone", "delay_doubles", "resume_delay_continues", "resume_delay_monotone", "spawn_base_is_recorded_failures_plus_one", "typed_of_filter", "realSubs_are_the_registrations",
             "resume_skips_event_finished_meanwhile", "restart_redelivers", "delivered_at_least_once", "eventual_delivery", "eventual_delivery_from_start", "failed_visible",
@@ -256,7 +256,7 @@ def run(ctx):
         env["VERIF_CORPUS"] = os.path.join(ROOT, "harness", "corpus", "C14")
         env["VERIF_HISTS"] = 3000 if ctx.thorough else 110
         env["VERIF_BASES"] = 130 if ctx.thorough else 10
-        env["VERIF_MAXVAR"] = 400 if ctx.thorough else 36
+        env["VERIF_MAXVAR"] = 500 if ctx.thorough else 46
     rc, log, out = ctx.run_harness(binary, "TestVerifC14", env, timeout=3000)
     if rc != 0:
         ctx.oblige("harness-runs", False, "\n".join(l for l in log.split("\n") if "level=audit" not in l)[-1500:])
@@ -309,6 +309,7 @@ def run(ctx):
     if not ctx.replay:
         handler_oracle(ctx)
         resume_oracle(ctx, binary)
+        duplicate_add_oracle(ctx, binary)
         start_oracle(ctx)
         classification_oracle(ctx)
 
@@ -484,6 +485,35 @@ def resume_oracle(ctx, binary):
                       f"real notifier.Run (round {r}): job {i} was delivered after its completion had been recorded (Finished() during the delivery of an earlier job)",
                       "run-delivers-stale-snapshot.txt", "scenario of TestVerifC14Resume in harness/inpkg/network/dag/zz_verif_c14_test.go (VERIF_SEED=%s), failing round:\n%s\n" % (ctx.seed, line))
     ctx.cov["resume_leg"] = {"rounds": rounds, "finished_before_reached": n_fin_pending}
+
+
+def duplicate_add_oracle(ctx, binary):
+    """two threads admit the same transaction; Add#1 is frozen between its read phase and its write transaction while Add#2
+    commits and the subscriber completes the event: Add#1 must admit nothing (each event delivered exactly once)"""
+    d = os.path.join(ctx.scratch, "outd")
+    rc, log, out = ctx.run_harness(binary, "TestVerifC14DuplicateAdd", {"VERIF_ROUNDS": 40 if ctx.thorough else 8}, outdir=d, timeout=300)
+    if rc != 0:
+        ctx.oblige("duplicate-add-harness-runs", False, "\n".join(l for l in log.split("\n") if "level=audit" not in l)[-1200:])
+        return
+    bad, rounds = [], 0
+    for l in ctx.read_lines(os.path.join(out, "dup.out")):
+        m = re.match(r"round=(\d+) payload=(\w+) restart=(\w+) err1=(\w+) err2=(\w+) afterAdd2=\[nats=(\d+) txsub=(\d+)\] final=\[nats=(\d+) txsub=(\d+)\] jobs=(\d+)$", l)
+        if not m:
+            continue
+        rounds += 1
+        want_nats = 1 if m.group(2) == "true" else 0
+        ok = m.group(4) == "true" and m.group(5) == "true" and int(m.group(6)) == want_nats and int(m.group(7)) == 1 \
+            and int(m.group(8)) == want_nats and int(m.group(9)) == 1 and int(m.group(10)) == 0
+        if not ok:
+            bad.append((m.group(1), l))
+    ctx.oblige("duplicate-add-harness-runs", rounds > 0, f"{rounds} rounds")
+    ctx.oblige("oracle:duplicate-add:second-admission-of-a-present-transaction-admits-nothing", not bad, "; ".join(l for _, l in bad[:2]))
+    if bad:
+        r, line = bad[0]
+        ctx.violation("C14:call-after-completion:duplicate-Add-admits-again",
+                      f"real State.Add (round {r}): a duplicate Add that had passed its read phase before the transaction was committed ran admission again: subscribers were called again / jobs re-created after completion",
+                      "duplicate-add-admits-again.txt", "scenario of TestVerifC14DuplicateAdd in harness/inpkg/network/dag/zz_verif_c14_test.go (VERIF_SEED=%s), failing round:\n%s\n" % (ctx.seed, line))
+    ctx.cov["duplicate_add_leg"] = {"rounds": rounds}
 
 
 def start_oracle(ctx):
